@@ -1,5 +1,5 @@
 use crate::distributions::*;
-use crate::functions::binom_coeff;
+use crate::functions::ln_gamma;
 
 /// Implements the [Binomial](https://en.wikipedia.org/wiki/https://en.wikipedia.org/wiki/Binomial_distribution)
 /// distribution with trials `n` and probability of success `p`.
@@ -270,9 +270,19 @@ impl Discrete for Binomial {
         if k < 0 || k as u64 > self.n {
             return 0.;
         }
-        binom_coeff(self.n, k as u64) as f64
-            * self.p.powi(k as i32)
-            * (1. - self.p).powi((self.n - k as u64) as i32)
+        // degenerate laws first: 0 * ln(0) below would be NaN
+        if self.p == 0. {
+            return if k == 0 { 1. } else { 0. };
+        }
+        if self.p == 1. {
+            return if k as u64 == self.n { 1. } else { 0. };
+        }
+        // C(n, k) does not fit in a u64 from n = 68 on: work in log space
+        let (n, k) = (self.n as f64, k as f64);
+        (ln_gamma(n + 1.) - ln_gamma(k + 1.) - ln_gamma(n - k + 1.)
+            + k * self.p.ln()
+            + (n - k) * (1. - self.p).ln())
+        .exp()
     }
 }
 
